@@ -497,6 +497,31 @@ def rule_r5(ck, prog, rule='C10.R5'):
                     if name == 'memcmp' and len(l['args']) == 3 and (is_len_field(l['args'][2]) or is_key_size(l['args'][2])):
                         return True
         return False
+    # the not-found answer is only given once the list is exhausted: the default return is behind the edge on which the node pointer
+    # is null (a loop that also stops at a node without key hides every older binding below an empty SetValues)
+    misses = [r for r in g.returns() if r not in hits]
+    node_vars = {d['id'] for n in f.nodes if n['k'] == 'declstmt' for d in n['decls'] if 'DataList' in d['t'] and '*' in d['t']}
+
+    def exhausted(a, b, lab):
+        if not lab or not isinstance(lab[0], int):
+            return False
+        core, pol = norm_cond(lab[1], lab[0])
+        truth = (lab[2] if pol else not lab[2])
+        cn = strip_casts(f, core)
+        if cn['k'] == 'ref' and cn.get('id') in node_vars:
+            return truth is False
+        c = comparison(f, core)
+        if c and c[0] in ('==', '!='):
+            l, r2 = strip_casts(f, c[1]), strip_casts(f, c[2])
+            if r2['k'] == 'ref':
+                l, r2 = r2, l
+            if l['k'] == 'ref' and l.get('id') in node_vars and (r2.get('v') == 0 or r2['k'] in ('nullptr', 'CXXNullPtrLiteralExpr', 'lit')):
+                return truth is (c[0] == '==')
+        return False
+    for r in misses:
+        ok = bool(node_vars) and g.must_pass_edge(r, exhausted)
+        ck.verdict(ok, rule, f, 'not-found-only-after-whole-list', r.n, 'the default value is returned only behind the edge on which the node pointer is null' if ok else
+                   'the lookup can give up before the end of the list (a loop exit other than "node == nullptr"): bindings below that node are lost, e.g. everything bound before an empty SetValues')
     for r in hits:
         okl = g.must_pass_edge(r, len_edge)
         okb = g.must_pass_edge(r, bytes_edge)
@@ -517,7 +542,7 @@ def run(ck, prog):
     ck.doc('C10.R2', 'the runtime context stack has thread storage in the configured compiler variant', 2)
     ck.doc('C10.R3', 'Detach/Stack typestate and guards (pops, search direction, push/pop/top/resize shape, Resize callers)', 11)
     ck.doc('C10.R4', 'token destructor detaches itself (unconditionally, or on state set only after a successful detach); Attach pushes the token\'s context; Scope attaches the span', 4)
-    ck.doc('C10.R5', 'Context lookup returns a stored value only for an exactly equal key (length and bytes)', 1)
+    ck.doc('C10.R5', 'Context lookup returns a stored value only for an exactly equal key (length and bytes); not-found only after the whole list', 2)
     with ck.canary('C10.R1'):
         rule_r1(ck, prog, only='canary::c10::')
     rule_r1(ck, prog)
